@@ -308,6 +308,176 @@ def build_C06(ctx, tier, rnd):
     return hs
 
 
+# ---- C06, real-transport half: the library's default callbacks (reqwest) against a scripted local server
+HC_FAIL = ['close', 'reset', 'stall', 'garbage', 's500', 's404', 's403', 's204', 'chunkbad', 'halfhead', 'trunc', 'refused']
+HD_FAIL = ['close', 'reset', 'stall', 'garbage', 's500', 's404', 'trunc', 'chunkbad', 'halfhead']
+HE_FAIL = ['s500', 'close', 'reset', 'garbage']
+
+
+def http_bodies(ctx):
+    """(name, raw body, model-equivalent response tokens or 'err'): what serde makes of a 200 body"""
+    p2 = ctx.p['2']
+    H, U = p2['hash'], '@@DL@@/' + hx(url_of(2))
+    ok2 = resp(True, (2, H, url_of(2), None), None)
+    patch = '{"number":2,"hash":"%s","download_url":"%s"}' % (H, U)
+    big = 18446744073709551615
+    v = [
+        ('min', '{"patch_available":true,"patch":%s}' % patch, ok2),
+        ('extra', '{"zzz":[1,{"a":null}],"patch_available":true,"patch":{"size":12,"number":2,"hash":"%s","download_url":"%s","x":{}},"more":"x"}' % (H, U), ok2),
+        ('rbnull', '{"patch_available":true,"patch":%s,"rolled_back_patch_numbers":null}' % patch, ok2),
+        ('signull', '{"patch_available":true,"patch":{"number":2,"hash":"%s","download_url":"%s","hash_signature":null}}' % (H, U), ok2),
+        ('pad', ' ' * 300000 + '{"patch_available":true,"patch":%s}' % patch + '\n' * 1000, ok2),
+        ('navail_null', '{"patch_available":false,"patch":null}', resp(False, None, None)),
+        ('navail', '{"patch_available":false}', resp(False, None, None)),
+        ('contra', '{"patch_available":true}', resp(True, None, None)),
+        ('navail_patch', '{"patch_available":false,"patch":%s}' % patch, resp(False, (2, H, url_of(2), None), None)),
+        ('rb1', '{"patch_available":false,"rolled_back_patch_numbers":[1]}', resp(False, None, [1])),
+        ('rb_dup', '{"patch_available":false,"rolled_back_patch_numbers":[2,2,1]}', resp(False, None, [2, 2, 1])),
+        ('rb_empty', '{"patch_available":true,"patch":%s,"rolled_back_patch_numbers":[]}' % patch, resp(True, (2, H, url_of(2), None), [])),
+        # serde_json skips an ignored value iteratively: no recursion limit applies to it
+        ('deep_ignored', '{"patch_available":true,"patch":%s,"x":%s%s}' % (patch, '[' * 300, ']' * 300), ok2),
+        ('escapes', '{"patch_available":true,"patch":{"number":2,"hash":"%s","download\\u005furl":"%s"}}' % (H, U), ok2),
+    ]
+    bad = [
+        ('empty', ''), ('null', 'null'), ('arr', '[]'), ('str', '"patch_available"'), ('obj0', '{}'),
+        ('avail_str', '{"patch_available":"yes"}'), ('avail_int', '{"patch_available":1}'), ('avail_null', '{"patch_available":null}'),
+        ('num_str', '{"patch_available":true,"patch":{"number":"2","hash":"%s","download_url":"%s"}}' % (H, U)),
+        ('num_neg', '{"patch_available":true,"patch":{"number":-1,"hash":"%s","download_url":"%s"}}' % (H, U)),
+        ('num_frac', '{"patch_available":true,"patch":{"number":2.5,"hash":"%s","download_url":"%s"}}' % (H, U)),
+        ('num_float', '{"patch_available":true,"patch":{"number":2.0,"hash":"%s","download_url":"%s"}}' % (H, U)),
+        ('num_huge', '{"patch_available":true,"patch":{"number":%d,"hash":"%s","download_url":"%s"}}' % (big + 1, H, U)),
+        ('no_hash', '{"patch_available":true,"patch":{"number":2,"download_url":"%s"}}' % U),
+        ('no_url', '{"patch_available":true,"patch":{"number":2,"hash":"%s"}}' % H),
+        ('no_num', '{"patch_available":true,"patch":{"hash":"%s","download_url":"%s"}}' % (H, U)),
+        ('hash_int', '{"patch_available":true,"patch":{"number":2,"hash":5,"download_url":"%s"}}' % U),
+        ('hash_null', '{"patch_available":true,"patch":{"number":2,"hash":null,"download_url":"%s"}}' % U),
+        ('sig_int', '{"patch_available":true,"patch":{"number":2,"hash":"%s","download_url":"%s","hash_signature":7}}' % (H, U)),
+        ('patch_arr', '{"patch_available":true,"patch":[]}'), ('patch_str', '{"patch_available":true,"patch":"2"}'),
+        ('rb_mixed', '{"patch_available":false,"rolled_back_patch_numbers":[1,"2"]}'),
+        ('rb_obj', '{"patch_available":false,"rolled_back_patch_numbers":{"1":true}}'),
+        ('rb_neg', '{"patch_available":false,"rolled_back_patch_numbers":[-1]}'),
+        ('rb_int', '{"patch_available":false,"rolled_back_patch_numbers":1}'),
+        ('dup_key', '{"patch_available":false,"patch_available":true,"patch":%s}' % patch),
+        ('dup_patch', '{"patch_available":true,"patch":%s,"patch":%s}' % (patch, patch)),
+        ('trailing', '{"patch_available":true,"patch":%s} trailing' % patch),
+        ('two_docs', '{"patch_available":true,"patch":%s}{"patch_available":false}' % patch),
+        ('cut', ('{"patch_available":true,"patch":%s}' % patch)[:-9]),
+        ('bom', '\ufeff{"patch_available":true,"patch":%s}' % patch),
+        ('single_quotes', "{'patch_available':true}"),
+        ('comment', '{"patch_available":true,/* c */"patch":%s}' % patch),
+        ('nan', '{"patch_available":true,"patch":{"number":NaN,"hash":"%s","download_url":"%s"}}' % (H, U)),
+        ('html', '<html><body>502 Bad Gateway</body></html>'),
+    ]
+    out = [(n, b.encode('utf-8'), m) for n, b, m in v] + [(n, b.encode('utf-8'), 'err') for n, b in bad]
+    # serde_json does not validate the bytes of a string it skips: ill-formed UTF-8 in an ignored field is accepted
+    out.append(('badutf8_ignored', b'{"patch_available":true,"zz":"\xff\xfe","patch":' + patch.encode() + b'}', ok2))
+    out.append(('badutf8_hash', b'{"patch_available":true,"patch":{"number":2,"hash":"\xff\xfe","download_url":"x"}}', 'err'))
+    out.append(('nul', b'{"patch_available":true\x00}', 'err'))
+    out.append(('num_max', ('{"patch_available":true,"patch":{"number":%d,"hash":"%s","download_url":"@@DL@@/%s"}}' % (big, H, hx(url_of(2)))).encode(),
+                resp(True, (big, H, url_of(2), None), None)))
+    return out
+
+
+def build_C06_http(ctx, tier, rnd):
+    """returns [(name, impl_ops, model_ops, refused_indices)]"""
+    al = gen.Alphabet(ctx)
+    p2 = ctx.p['2']
+    dl2 = ctx.blobs[p2['dl']]
+    cuts = sorted(set([0, 1, len(dl2) // 2, len(dl2) - 1]))
+    for k in cuts:
+        nm = 'h_short%d' % k
+        ctx.add_blob(nm, dl2[:k])
+        ctx.add_zdec_real(nm)
+    bodies = http_bodies(ctx)
+    for n, b, m in bodies:
+        ctx.add_blob('hb_' + n, b)
+    u2 = op_update(ctx, 2)
+    ck2 = op_check(ctx, 2)
+    variants = []   # (label, impl op, model op, refused?)
+    for k in HC_FAIL:
+        variants.append(('hc_' + k, u2 + ' hc=' + k, 'op update - err @%s' % p2['dl'], k == 'refused'))
+        variants.append(('ckhc_' + k, ck2 + ' hc=' + k, 'op check - err', k == 'refused'))
+    variants.append(('hc_nolen', u2 + ' hc=nolen', u2, False))
+    for k in HD_FAIL:
+        variants.append(('hd_' + k, u2 + ' hd=' + k, op_update(ctx, 2, dl='err'), False))
+    variants.append(('hd_nolen', u2 + ' hd=nolen', u2, False))
+    for k in cuts:
+        variants.append(('hd_short%d' % k, u2 + ' hd=short:%d' % k, op_update(ctx, 2, dl='@h_short%d' % k), False))
+    for k in HE_FAIL:
+        variants.append(('he_' + k, u2 + ' he=' + k, u2, False))
+    for n, b, m in bodies:
+        mo = 'op update - err @%s' % p2['dl'] if m == 'err' else 'op update - %s @%s' % (m, p2['dl'])
+        variants.append(('hb_' + n, u2 + ' hb=@hb_' + n, mo, False))
+        if tier == 'thorough' or n in ('min', 'navail', 'rb1', 'avail_str', 'num_str', 'trailing', 'dup_key'):
+            mc = 'op check - err' if m == 'err' else 'op check - %s' % m
+            variants.append(('ckhb_' + n, ck2 + ' hb=@hb_' + n, mc, False))
+    prekeys = ('empty', 'good1', 'good1boot2') if tier == 'quick' else ('empty', 'pend1', 'boot1', 'good1', 'good1pend2', 'good1boot2', 'good1bad2', 'good2pend1')
+    hs = []
+    for pk in prekeys:
+        pre = [al.init] + al.seq(PFX[pk])
+        for lab, io, mo, refused in variants:
+            tail = al.seq(['q', 'c']) + al.seq(['u2', 'q', 's', 'ok', 'q', 'R', 'q'])
+            iops = pre + [io] + tail
+            mops = pre + [mo] + tail
+            hs.append(('h6_%s_%s' % (pk, lab), iops, mops, [len(pre)] if refused else []))
+    # failure events queued, then a refused / failing / healthy server: the queue is flushed best-effort
+    for lab, io, mo, refused in variants[:2 * len(HC_FAIL)]:
+        pre = [al.init] + al.seq(PFX['good1boot2']) + al.seq(['fail', 'R'])
+        tail = al.seq(['q', 'u3', 'q'])
+        hs.append(('h6_ev_%s' % lab, pre + [io] + tail, pre + [mo] + tail, [len(pre)] if refused else []))
+    return hs
+
+
+def run_C06(pid, tier, seed, model_ok=True):
+    a = run_lifecycle(pid, tier, seed, build_C06, [monitors.mon_C05, monitors.mon_healthy], trig_update, C06_RULE, model_ok=model_ok)
+    rnd = random.Random(seed)
+    ctx = Ctx(seed=seed)
+    work = os.path.join(CACHE, 'work-%s-http-%d' % (pid, os.getpid()))
+    try:
+        hs = build_C06_http(ctx, tier, rnd)
+        header = ctx.header()
+        model, _, ex1 = run_both(header, [(n, m) for n, i, m, r in hs], work, model_only=True) if model_ok else ({}, {}, [])
+        _, impl, ex2 = run_both(header + ['http on'], [(n, i) for n, i, m, r in hs], work, impl_only=True)
+        a['extras'] += ex1 + ex2
+        kinds = collections.Counter()
+        for name, iops, mops, refused in hs:
+            tr = impl.get(name)
+            if tr is None:
+                a['extras'].append('http: no implementation trace for %s' % name)
+                continue
+            mt = model.get(name)
+            if mt is not None:
+                mt = list(mt)
+                for idx in refused:      # a refused connection never reaches a server: nothing is observed on the wire
+                    if idx < len(mt):
+                        mt[idx] = re.sub(r'net=.*$', 'net=', mt[idx])
+                for i in range(max(len(mt), len(tr))):
+                    x = mt[i] if i < len(mt) else '<missing>'
+                    y = tr[i] if i < len(tr) else '<missing>'
+                    if x != y:
+                        a['divergences'].append((name, i, x, y, iops, header + ['http on']))
+                        break
+            pops = [gen.parse_op(o) for o in mops]
+            sts = [parse_line(l) for l in tr]
+            if len(sts) != len(pops):
+                a['extras'].append('http: impl trace of %s has %d lines for %d ops' % (name, len(sts), len(pops)))
+                continue
+            a['evaluations'] += len(pops)
+            kinds[name.split('_', 2)[2].split('_')[0]] += 1
+            for m in (monitors.mon_C05, monitors.mon_healthy):
+                for (idx, msg) in m(ctx, pops, sts):
+                    a['monitor_fail'].append((name, idx, 'real HTTP: ' + msg, iops, header + ['http on']))
+        a['distinct'] += len(hs)
+        a['traces'] = a.get('traces', 0) + len(impl)
+        a['dist'] = dict(a.get('dist', {}), **{'http_' + k: v for k, v in kinds.items()})
+        if hs:
+            a['samples'].append({'history': hs[0][0], 'ops': hs[0][1][:12]})
+        return a
+    finally:
+        ctx.cleanup()
+        shutil.rmtree(work, ignore_errors=True)
+
+
 def build_C07(ctx, tier, rnd):
     hs = []
     h2 = ctx.p['2']['hash']
@@ -1247,6 +1417,12 @@ def run_C04(pid, tier, seed, model_ok=True):
         shutil.rmtree(work, ignore_errors=True)
 
 
+C06_RULE = ('(a) every injected failure (check error, download error, junk download, bad hash, contradictory response, not-available) x2 from lifecycle states, followed by healthy updates; '
+            '(b) the same library through its default reqwest callbacks against a scripted local HTTP server: refused / closed / reset / stalled connections, non-HTTP bytes, error statuses, truncated and unterminated bodies, bad chunking, '
+            '50 response bodies (wrong types, missing / duplicate fields, extreme numbers, trailing data, bad UTF-8, deep nesting) each mapped to the response serde should make of it, from lifecycle states, followed by a healthy update; '
+            'non-trivial = distinct (state, update-with-offer) for (a), distinct (state, server behaviour) for (b)')
+
+
 def mk(build, mons, trig, rule, **kw):
     d = dict(mons=mons, run=lambda pid, tier, seed, model_ok=True: run_lifecycle(pid, tier, seed, build, mons, trig, rule, model_ok=model_ok))
     d.update(kw)
@@ -1276,9 +1452,8 @@ PROPS = {
     'C05': mk(build_C05, [monitors.mon_C05, monitors.mon_healthy], trig_update,
               'byte-level mutants (flip/truncate/extend at zstd and at bidiff level) of a genuine patch, wrong base, empty/junk downloads, hash-string variants, each from 4 lifecycle states followed by a genuine install; non-trivial = distinct (state, update-with-offer)',
               assumptions=['zstd decoder output (incl. partial output on failure) is an oracle computed by the zstd library outside the updater']),
-    'C06': mk(build_C06, [monitors.mon_C05, monitors.mon_healthy], trig_update,
-              'every injected failure (check error, download error, junk download, bad hash, contradictory response, not-available) x2 from lifecycle states, followed by healthy updates; non-trivial = distinct (state, update-with-offer)',
-              assumptions=['transport layer (reqwest) not modelled: failures are injected at the network callbacks']),
+    'C06': dict(mons=[], run=run_C06,
+                assumptions=['TCP/HTTP behaviour below reqwest (kernel, hyper) is exercised against a scripted local server, not modelled; the model sees a failed request as "no response"']),
     'C07': mk(build_C07, [lambda c, o, s: monitors.mon_C01(c, o, s)], trig_handout,
               '10 signature variants x 4 configured keys x lifecycle states; same-size/different-size tampering x continuations; exhaustive + random walks under a key; non-trivial = distinct (state, query/start with a selection)',
               assumptions=['RSA verification (ring) and base64 are oracles; signature table built with openssl']),
